@@ -98,7 +98,13 @@ Section Det.
             match assoc name m with
             | Some x => do oe <- optional (rec (p_ty p) x);
                         ROk (option_map (fun e => (FId (p_name p), e)) oe)
-            | None => ROk (Some (FId (p_name p), EDefault))
+            | None =>
+                (* fix a08c818: an absent member takes its OWN schema default (as serde does) *)
+                match p_state p with
+                | PDefault dv => do oe <- optional (rec (p_ty p) dv);
+                                 ROk (option_map (fun e => (FId (p_name p), e)) oe)
+                | _ => ROk (Some (FId (p_name p), EDefault))
+                end
             end
         end) props;
     let names := flat_map (fun p => match wire_name p with Some n => [n] | None => [] end) props in
@@ -536,8 +542,9 @@ Definition num_eqb (a b : json) : bool :=
   | _, _ => false
   end.
 
-(* [approx d r]: the realised value r equals the schema default d up to members that were
-   left to `Default::default()` (absent in r) or skipped because empty. *)
+(* [approx d r]: the realised value r equals the schema default d up to filling of nested defaults: every member
+   of d is in r with an [approx]-equal value, or was skipped because empty; r may have additional members (members
+   absent from d that took their own schema default, fix a08c818) and lacks those left to `Default::default()`. *)
 Fixpoint approx (d r : json) {struct d} : bool :=
   match d, r with
   | JArr x, JArr y =>
@@ -548,7 +555,7 @@ Fixpoint approx (d r : json) {struct d} : bool :=
          | _, _ => false
          end) x y
   | JObj x, JObj y =>
-      forallb (fun '(k, _) => has_key k x) y &&
+      (* y may contain additional members: the nested defaults that were filled in *)
       (fix go (x : list (ustring * json)) : bool :=
          match x with
          | [] => true
